@@ -26,3 +26,36 @@ package stgutg
 //@ loop i invariant buf (i int, suci nasType.MobileIdentity5GS, imsi []byte, mncLen int): len(suci.Buffer) == 8+i/2 && vc.Forall(0, len(suci.Buffer), func(j int) bool { return suci.Buffer[j] == ids.SUCIByte(imsi, mncLen, j) })
 //@ loop i invariant hdr (suci nasType.MobileIdentity5GS): suci.Iei == 0
 //@ loop i decreases (i int, msin []byte): len(msin) + 1 - i
+
+// ---- C12: extraction of the UE address, TEID and UPF address ----
+
+// On any input whatsoever the walk terminates (a run-time panic ends it too).
+//@ func DecodePDUSessionNASPDU
+//@ prop C12
+//@ behavior total
+//@ nosafety
+//@ loop index invariant range (index int, length int): 0 <= index && length <= 1<<16
+//@ loop index decreases (index int, length int): length - index
+//@ behavior wellformed
+//@ requires wf: nas24501.AcceptMsgWF(PDUSessionNASPDU)
+//@ ensures addr: len(result) == 4 && vc.Forall(0, 4, func(k int) bool { return result[k] == PDUSessionNASPDU[nas24501.AcceptPDUAddressAt(PDUSessionNASPDU)+k] })
+//@ loop index invariant pos (index int): 0 <= index
+//@ loop index invariant wf (index int, PDUSessionNASPDU []byte): nas24501.AcceptWF(PDUSessionNASPDU, nas24501.OptStart(PDUSessionNASPDU)+index, nas24501.PayloadEnd(PDUSessionNASPDU))
+//@ loop index invariant find (index int, PDUSessionNASPDU []byte): nas24501.AcceptFindAddr(PDUSessionNASPDU, nas24501.OptStart(PDUSessionNASPDU)+index, nas24501.PayloadEnd(PDUSessionNASPDU)) == nas24501.AcceptFindAddr(PDUSessionNASPDU, nas24501.OptStart(PDUSessionNASPDU), nas24501.PayloadEnd(PDUSessionNASPDU))
+//@ loop index invariant range (index int, length int): index < length
+
+//@ func DecodePDUSessionResourceSetupRequestTransfer
+//@ prop C12
+//@ behavior total
+//@ nosafety
+//@ loop offset invariant range (offset int, PDUSessionResourceSetupRequestTransfer []byte): 3 <= offset
+//@ loop offset decreases (offset int, PDUSessionResourceSetupRequestTransfer []byte): len(PDUSessionResourceSetupRequestTransfer) - offset
+//@ behavior wellformed
+//@ requires wf: ngap38413.TransferMsgWF(PDUSessionResourceSetupRequestTransfer)
+//@ let at := ngap38413.TransferAddrAt(PDUSessionResourceSetupRequestTransfer)
+//@ ensures addr: len(result1) == 4 && vc.Forall(0, 4, func(k int) bool { return result1[k] == PDUSessionResourceSetupRequestTransfer[at+k] })
+//@ ensures teid: result0 == uint32(PDUSessionResourceSetupRequestTransfer[at+4])<<24|uint32(PDUSessionResourceSetupRequestTransfer[at+5])<<16|uint32(PDUSessionResourceSetupRequestTransfer[at+6])<<8|uint32(PDUSessionResourceSetupRequestTransfer[at+7])
+//@ loop offset invariant pos (offset int): 3 <= offset
+//@ loop offset invariant wf (offset int, PDUSessionResourceSetupRequestTransfer []byte): ngap38413.TransferWF(PDUSessionResourceSetupRequestTransfer, offset)
+//@ loop offset invariant find (offset int, PDUSessionResourceSetupRequestTransfer []byte): ngap38413.TransferFind139(PDUSessionResourceSetupRequestTransfer, offset) == ngap38413.TransferFind139(PDUSessionResourceSetupRequestTransfer, 3)
+//@ loop offset invariant range (offset int, PDUSessionResourceSetupRequestTransfer []byte): offset < len(PDUSessionResourceSetupRequestTransfer)
